@@ -22,9 +22,10 @@ Proof. apply cid_eqb_eq. reflexivity. Qed.
 
 Lemma kind_eqb_eq a b : kind_eqb a b = true <-> a = b.
 Proof.
-  destruct a as [p| | | | | |], b as [q| | | | | |]; simpl; split; intros H; try reflexivity; try discriminate.
-  - apply Bool.eqb_prop in H. subst. reflexivity.
-  - inversion H. apply Bool.eqb_reflx.
+  destruct a as [p d| | | | | |], b as [q e| | | | | |]; simpl; split; intros H; try reflexivity; try discriminate.
+  - apply andb_true_iff in H. destruct H as [H H2]. apply Bool.eqb_prop in H. subst.
+    destruct d, e; try discriminate; reflexivity.
+  - inversion H. rewrite Bool.eqb_reflx. destruct e; reflexivity.
 Qed.
 
 Lemma kind_eqb_refl a : kind_eqb a a = true.
@@ -89,7 +90,7 @@ Qed.
 
 Lemma cohw_step w o w' : CohW w -> wmstep w o = Some w' -> CohW w'.
 Proof.
-  intros HC H. unfold wmstep in H. destruct o as [x k nm|ci n x|ci x on|x p|x on|ci n|ci]; simpl in H.
+  intros HC H. unfold wmstep in H. destruct o as [x k nm|ci n x|ci x on|x p|x d|x on|ci n|ci]; simpl in H.
   - destruct (w_heap w x); inversion H. intros ci. apply HC.
   - destruct (w_heap w x) as [ob|]; [|discriminate]. unfold store in H.
     destruct (cstp (fst ci) (w_st w ci) _) as [s'|] eqn:E; [|discriminate]. inversion H.
@@ -97,6 +98,7 @@ Proof.
   - destruct (w_heap w x) as [ob|]; [|discriminate]. unfold store in H.
     destruct (cstp (fst ci) (w_st w ci) _) as [s'|] eqn:E; [|discriminate]. inversion H.
     apply cohw_cupd; [exact HC|]. eapply cstp_coh; [apply HC|exact E].
+  - destruct (w_heap w x) as [[k nm pm pb]|]; [|discriminate]. destruct k; inversion H. intros ci. apply HC.
   - destruct (w_heap w x) as [[k nm pm pb]|]; [|discriminate]. destruct k; inversion H. intros ci. apply HC.
   - destruct (w_heap w x) as [[k nm pm pb]|]; [|discriminate]. destruct (has_name_attr k); inversion H. intros ci. apply HC.
   - unfold onctr in H. destruct (cstp (fst ci) (w_st w ci) _) as [s'|] eqn:E; [|discriminate]. inversion H.
@@ -119,7 +121,7 @@ Qed.
 (* an operation that does not touch object x leaves x as it is *)
 Lemma heap_frame w o w' x : wmstep w o = Some w' -> touches o x = false -> w_heap w' x = w_heap w x.
 Proof.
-  intros H T. unfold wmstep in H. destruct o as [y k nm|ci n y|ci y on|y p|y on|ci n|ci]; simpl in H, T.
+  intros H T. unfold wmstep in H. destruct o as [y k nm|ci n y|ci y on|y p|y d|y on|ci n|ci]; simpl in H, T.
   - destruct (w_heap w y); inversion H. simpl. apply hupd_other. apply Z.eqb_neq in T. congruence.
   - destruct (w_heap w y) as [ob|]; [|discriminate]. unfold store in H.
     destruct (cstp _ _ _); [|discriminate]. inversion H. simpl.
@@ -127,6 +129,8 @@ Proof.
   - destruct (w_heap w y) as [ob|]; [|discriminate]. unfold store in H.
     destruct (cstp _ _ _); [|discriminate]. inversion H. simpl.
     destruct (bind_name _); [|reflexivity]. apply hupd_other. apply Z.eqb_neq in T. congruence.
+  - destruct (w_heap w y) as [[k nm pm pb]|]; [|discriminate]. destruct k; inversion H. simpl.
+    apply hupd_other. apply Z.eqb_neq in T. congruence.
   - destruct (w_heap w y) as [[k nm pm pb]|]; [|discriminate]. destruct k; inversion H. simpl.
     apply hupd_other. apply Z.eqb_neq in T. congruence.
   - destruct (w_heap w y) as [[k nm pm pb]|]; [|discriminate]. destruct (has_name_attr k); inversion H. simpl.
@@ -150,7 +154,7 @@ Qed.
 Lemma get_frame w o w' ci n : wmstep w o = Some w' -> binds_here (w_heap w) o ci n = false -> wget w' ci n = wget w ci n.
 Proof.
   intros H B. unfold wmstep in H. unfold binds_here, wbind in B. unfold wget.
-  destruct o as [y k nm|cj m y|cj y on|y p|y on|cj m|cj]; simpl in H.
+  destruct o as [y k nm|cj m y|cj y on|y p|y d|y on|cj m|cj]; simpl in H.
   - destruct (w_heap w y); inversion H. reflexivity.
   - destruct (w_heap w y) as [ob|]; [|discriminate]. unfold store in H.
     destruct (cstp _ _ _) as [s'|] eqn:E; [|discriminate]. inversion H. simpl.
@@ -162,6 +166,7 @@ Proof.
     unfold cupd. destruct (cid_eqb ci cj) eqn:Ec; [|reflexivity]. apply cid_eqb_eq in Ec. subst cj.
     apply (cstp_get _ _ _ _ n E). destruct (bind_name _) as [m'|]; [|exact I]. simpl in B.
     rewrite cid_eqb_refl in B. exact B.
+  - destruct (w_heap w y) as [[k nm pm pb]|]; [|discriminate]. destruct k; inversion H. reflexivity.
   - destruct (w_heap w y) as [[k nm pm pb]|]; [|discriminate]. destruct k; inversion H. reflexivity.
   - destruct (w_heap w y) as [[k nm pm pb]|]; [|discriminate]. destruct (has_name_attr k); inversion H. reflexivity.
   - unfold onctr in H. destruct (cstp _ _ _) as [s'|] eqn:E; [|discriminate]. inversion H. simpl.
@@ -206,7 +211,7 @@ Lemma add_post w o w' ci m : wmstep w o = Some w' -> wbind (w_heap w) o = Some (
     wget w' ci m = Some (V x (o_kind ob) (Some m)) /\ in_sync w' ci m (V x (o_kind ob) (Some m)) /\
     w_heap w' x = Some (adopt ci m ob).
 Proof.
-  intros H B. unfold wmstep in H. destruct o as [y k nm|cj n y|cj y on|y p|y on|cj n|cj]; simpl in B; try discriminate; simpl in H.
+  intros H B. unfold wmstep in H. destruct o as [y k nm|cj n y|cj y on|y p|y d|y on|cj n|cj]; simpl in B; try discriminate; simpl in H.
   - destruct (w_heap w y) as [ob|] eqn:Eh; [|discriminate].
     destruct (bind_name (SetAttr n (snap y ob))) as [m'|] eqn:Eb; [|discriminate]. simpl in B. inversion B. subst cj m'.
     exists y, ob. split; [reflexivity|]. split; [exact Eh|]. eapply store_post; eauto.
@@ -240,14 +245,14 @@ Proof.
   - unfold opt_z_eqb in H3. destruct (parent_of (fst ci) ob); [|discriminate]. apply Z.eqb_eq in H3. subst. reflexivity.
 Qed.
 
-Lemma live_port_iff w i n v ob p : CohW w -> wget w (CModule, i) n = Some v -> in_sync w (CModule, i) n v ->
-  w_heap w (v_id v) = Some ob -> o_kind ob = KSignal p ->
+Lemma live_port_iff w i n v ob p d : CohW w -> wget w (CModule, i) n = Some v -> in_sync w (CModule, i) n v ->
+  w_heap w (v_id v) = Some ob -> o_kind ob = KSignal p d ->
   (lookup n (st_views (w_st w (CModule, i)) VPorts) = Some v <-> p = true) /\
   (lookup n (st_views (w_st w (CModule, i)) VSignals) = Some v <-> p = false).
 Proof.
   intros HC Hg Hs Hh Hk. destruct (in_sync_live _ _ _ _ Hs) as [ob' [Hh' [Hk' _]]].
   rewrite Hh in Hh'. inversion Hh'. subst ob'.
-  apply (coh_ports CModule (w_st w (CModule, i)) n v p eq_refl (HC (CModule, i)) Hg). congruence.
+  apply (coh_ports CModule (w_st w (CModule, i)) n v p d eq_refl (HC (CModule, i)) Hg). congruence.
 Qed.
 
 (* ------------------------------------------------------------------ entries denote live objects of their class *)
@@ -256,7 +261,7 @@ Definition entries_live (w : cworld) : Prop :=
     exists ob, w_heap w (v_id v) = Some ob /\ same_class (o_kind ob) (v_kind v) = true.
 
 Lemma same_class_sym a b : same_class a b = same_class b a.
-Proof. destruct a as [p| | | | | |], b as [q| | | | | |]; simpl; try reflexivity. Qed.
+Proof. destruct a as [p d| | | | | |], b as [q e| | | | | |]; simpl; try reflexivity. Qed.
 
 (* after an accepted operation, an entry is either the one just stored or was there before *)
 Lemma get_cases w o w' ci n v : wmstep w o = Some w' -> wget w' ci n = Some v ->
@@ -279,7 +284,7 @@ Proof.
   - destruct (HL ci n v Hold) as [ob [Hh Hc]].
     destruct (touches o (v_id v)) eqn:T.
     + (* the object is the one the operation works on: its class is kept *)
-      unfold wmstep in H. destruct o as [y k nm|cj m y|cj y on|y p|y on|cj m|cj]; simpl in H, T; try discriminate;
+      unfold wmstep in H. destruct o as [y k nm|cj m y|cj y on|y p|y d|y on|cj m|cj]; simpl in H, T; try discriminate;
         apply Z.eqb_eq in T; subst y; rewrite Hh in H.
       * discriminate.
       * unfold store in H. destruct (cstp _ _ _); [|discriminate]. inversion H. simpl.
@@ -288,6 +293,8 @@ Proof.
       * unfold store in H. destruct (cstp _ _ _); [|discriminate]. inversion H. simpl.
         destruct (bind_name _); [|eauto]. rewrite hupd_same. eexists. split; [reflexivity|].
         unfold adopt. destruct (fst cj); simpl; exact Hc.
+      * destruct ob as [k nm pm pb]. destruct k; inversion H. simpl. rewrite hupd_same. eexists. split; [reflexivity|].
+        simpl in *. destruct (v_kind v); try discriminate; reflexivity.
       * destruct ob as [k nm pm pb]. destruct k; inversion H. simpl. rewrite hupd_same. eexists. split; [reflexivity|].
         simpl in *. destruct (v_kind v); try discriminate; reflexivity.
       * destruct ob as [k nm pm pb]. destruct (has_name_attr k); inversion H. simpl. rewrite hupd_same.
@@ -348,7 +355,7 @@ Lemma linear_in_sync ops : forall w used, lin_inv w used -> linear used ops = tr
 Proof.
   induction ops as [|o t IH]; simpl; intros w used HI HL; [eauto|].
   unfold wmapply, wapply.
-  destruct o as [x k nm|ci n x|ci x on|x p|x on|ci n|ci].
+  destruct o as [x k nm|ci n x|ci x on|x p|x d|x on|ci n|ci].
   - (* a new object: no entry denotes it *)
     destruct (wstep cstp w (WNew x k nm)) as [w'|] eqn:E; [|eapply IH; eauto].
     apply (IH w' used); [|exact HL]. intros cj m v Hg.
@@ -370,6 +377,10 @@ Proof.
     + apply (IH w (x :: used)); [|exact HL]. eapply lin_inv_mono; [|exact HI]. simpl. auto.
   - apply andb_true_iff in HL. destruct HL as [Hx HL]. apply negb_true_iff in Hx. apply existsb_eqb_false in Hx.
     destruct (wstep cstp w (WVis x p)) as [w'|] eqn:E; [|eapply IH; eauto].
+    apply (IH w' used); [|exact HL].
+    apply (lin_step_touch w _ w' used x HI E Hx). intros y T. simpl in T. apply Z.eqb_eq in T. auto.
+  - apply andb_true_iff in HL. destruct HL as [Hx HL]. apply negb_true_iff in Hx. apply existsb_eqb_false in Hx.
+    destruct (wstep cstp w (WDir x d)) as [w'|] eqn:E; [|eapply IH; eauto].
     apply (IH w' used); [|exact HL].
     apply (lin_step_touch w _ w' used x HI E Hx). intros y T. simpl in T. apply Z.eqb_eq in T. auto.
   - apply andb_true_iff in HL. destruct HL as [Hx HL]. apply negb_true_iff in Hx. apply existsb_eqb_false in Hx.
@@ -420,7 +431,7 @@ Lemma refine_wstep w a o : (forall c, table_ok c = true) -> RW w a ->
   end.
 Proof.
   intros T HRW. pose proof HRW as [HR HH]. unfold wmstep, wspec_step.
-  destruct o as [x k nm|ci n x|ci x on|x p|x on|ci n|ci]; simpl.
+  destruct o as [x k nm|ci n x|ci x on|x p|x d|x on|ci n|ci]; simpl.
   - rewrite <- (HH x). destruct (w_heap w x); [exact I|]. split; simpl; [exact HR|]. apply hupd_ext. exact HH.
   - rewrite <- (HH x). destruct (w_heap w x) as [ob|]; [|exact I]. unfold store.
     pose proof (refine_cstp (fst ci) _ _ (SetAttr n (snap x ob)) (T (fst ci)) (HR ci)) as H.
@@ -430,6 +441,8 @@ Proof.
     pose proof (refine_cstp (fst ci) _ _ (Add (snap x ob) on) (T (fst ci)) (HR ci)) as H.
     destruct (cstp _ _ _), (astp _ _ _); try tauto.
     apply RW_cupd; [exact HRW|exact H|]. destruct (bind_name _); [apply hupd_ext|]; exact HH.
+  - rewrite <- (HH x). destruct (w_heap w x) as [[k nm pm pb]|]; [|exact I].
+    destruct k; try exact I. split; simpl; [exact HR|]. apply hupd_ext. exact HH.
   - rewrite <- (HH x). destruct (w_heap w x) as [[k nm pm pb]|]; [|exact I].
     destruct k; try exact I. split; simpl; [exact HR|]. apply hupd_ext. exact HH.
   - rewrite <- (HH x). destruct (w_heap w x) as [[k nm pm pb]|]; [|exact I].
@@ -454,12 +467,13 @@ Definition target (o : wop) : option cid :=
 
 Lemma ctr_frame w o w' ci : wmstep w o = Some w' -> target o <> Some ci -> w_st w' ci = w_st w ci.
 Proof.
-  intros H T. unfold wmstep in H. destruct o as [y k nm|cj m y|cj y on|y p|y on|cj m|cj]; simpl in H, T.
+  intros H T. unfold wmstep in H. destruct o as [y k nm|cj m y|cj y on|y p|y d|y on|cj m|cj]; simpl in H, T.
   - destruct (w_heap w y); inversion H. reflexivity.
   - destruct (w_heap w y) as [ob|]; [|discriminate]. unfold store in H.
     destruct (cstp _ _ _); [|discriminate]. inversion H. simpl. apply cupd_other. congruence.
   - destruct (w_heap w y) as [ob|]; [|discriminate]. unfold store in H.
     destruct (cstp _ _ _); [|discriminate]. inversion H. simpl. apply cupd_other. congruence.
+  - destruct (w_heap w y) as [[k nm pm pb]|]; [|discriminate]. destruct k; inversion H. reflexivity.
   - destruct (w_heap w y) as [[k nm pm pb]|]; [|discriminate]. destruct k; inversion H. reflexivity.
   - destruct (w_heap w y) as [[k nm pm pb]|]; [|discriminate]. destruct (has_name_attr k); inversion H. reflexivity.
   - unfold onctr in H. destruct (cstp _ _ _); [|discriminate]. inversion H. simpl. apply cupd_other. congruence.
